@@ -508,6 +508,37 @@ pub fn drive_corner_grid(rec: &mut GenRec, rng: &mut Rng, w: &Words, thorough: b
     }
 }
 
+/// The repository's own vectors (574 lines over 237 files, produced by libfuzzy itself): the FILE
+/// CONTENTS and the EXPECTED TEXT are recorded; the specification (not the code) is then checked
+/// against them - an anchor for the transcription of ssdeep into TLA+.
+pub fn drive_anchor(a: &Args) {
+    let mut sh = Shards::new(&a.out, "gen_anchor", a.shards);
+    let base = "/repo/ffuzzy/";
+    let index = std::fs::read_to_string(format!("{}data/testsuite/generate-small.ssdeep.txt", base)).unwrap_or_default();
+    let mut n = 0u64;
+    for line in index.lines() {
+        if line.is_empty() || line.starts_with('#') {
+            continue;
+        }
+        let tok: Vec<&str> = line.split_whitespace().collect();
+        if tok.len() != 3 {
+            continue;
+        }
+        let data = match std::fs::read(format!("{}{}", base, tok[0])) {
+            Ok(d) => d,
+            Err(_) => continue,
+        };
+        let flags: u64 = tok[1].parse().unwrap_or(0);
+        sh.next_unit();
+        sh.emit("{\"ev\":\"new\",\"g\":0}");
+        sh.emit_w(&format!("{{\"ev\":\"upd\",\"g\":0,\"f\":0,\"d\":{}}}", jarr_u8(&data)), data.len() as u64 + 1);
+        sh.emit(&format!("{{\"ev\":\"anchor\",\"g\":0,\"flags\":{},\"want\":{},\"file\":{}}}", flags, jarr_u8(tok[2].as_bytes()), jstr(tok[0])));
+        n += 1;
+    }
+    println!("STATS {{\"anchor\":{{\"vectors\":{}}}}}", n);
+    sh.finish();
+}
+
 /// C01: inputs, one slice each, all finalisers + hash_buf.
 pub fn drive_inputs(a: &Args, w: &Words, budget_bytes: usize, maxlen: usize) {
     let mut sh = Shards::new(&a.out, "gen_inputs", a.shards);
